@@ -330,6 +330,14 @@ def run_witness(binpath, w):
                     "reproduced": bool(bad_items) or len(progs) < w.get("min_inputs", 1),
                     "why": ("; ".join(bad_items[:6]) if bad_items else "only %d calls generated" % len(progs))[:1500],
                     "n_inputs": len(progs), "failing_inputs": [progs[i] for i, r in enumerate(res) if r][:6]}
+        elif kind == "lsp-sweep":
+            # several LSP sessions (each a witness of kind "lsp" with its own oracle), run in parallel
+            from concurrent.futures import ThreadPoolExecutor
+            with ThreadPoolExecutor(max_workers=6) as ex:
+                res = list(ex.map(lambda w1: run_witness(binpath, w1), w["input"]))
+            bad_items = ["%s: %s" % (w1.get("note", i), r.get("why", "")) for i, (w1, r) in enumerate(zip(w["input"], res)) if r.get("reproduced")]
+            return {"cmd": "reftest-lsp <%d sessions>" % len(res), "exit": 0, "stdout": "", "stderr": "\n".join(r.get("stderr", "")[-300:] for r in res if r.get("reproduced"))[-1500:],
+                    "reproduced": bool(bad_items), "why": "; ".join(bad_items)[:1500], "n_inputs": sum(len(w1["input"]) for w1 in w["input"])}
         elif kind == "fix-corpus":
             # C22 bounded stand-in: run each program, apply `check --fix` until nothing changes,
             # require that the result still parses (no new error diagnostics), prints the same output
@@ -642,6 +650,13 @@ def run_witness(binpath, w):
                 with open(os.path.join(tmpdir, name), "w", encoding="utf-8") as fh:
                     fh.write(text)
             cmd = [binpath, "run", os.path.join(tmpdir, w["main"])]
+            stdin = None
+        elif kind == "test-dir":
+            # several files in one directory; `garden test <args>` where a file name in args is taken in that directory
+            for name, text in w["files"].items():
+                with open(os.path.join(tmpdir, name), "w", encoding="utf-8") as fh:
+                    fh.write(text)
+            cmd = [binpath, "test"] + [os.path.join(tmpdir, a) if a in w["files"] else a for a in w["args"]]
             stdin = None
         elif kind == "lsp":
             # a list of LSP messages replayed through `garden reftest-lsp`
